@@ -193,7 +193,17 @@ func runScenarioIn(t *testing.T, sc *Scenario, h *History) {
 	if sc.YieldPark > 0 {
 		yp := sc.YieldPark
 		var yn atomic.Int64
+		points := map[string]bool{"server.close": true, "server.shutdown": true}
+		if sc.YieldPoints != nil {
+			points = map[string]bool{}
+			for _, p := range sc.YieldPoints {
+				points[p] = true
+			}
+		}
 		smtp.VerifYield = func(point string) {
+			if !points[point] {
+				return
+			}
 			// each caller parks in its own residue class
 			sleepClass(40+int(yn.Add(1))%8, yp)
 		}
